@@ -9,6 +9,7 @@ from canon import coq_fs, coq_z, coq_list, coq_opt, coq_res
 ID = "C10"
 LEVEL = "proof"
 PROPS_FILE = "Props/C10.v"
+EXTRA_PROPS = ("Props/C10Tie.v",)
 CORR_VO = "Corr/C10.vo"
 REQUIRE = "From Curtsies Require Import Model.Base Model.Width Corr.C10.\nImport C10."
 CASE_TYPE = "C10.case"
